@@ -35,7 +35,7 @@ static inline void c8_stk_pop(cstack* k) { __CPROVER_assert(k->size > 0, "vector
 
 /* ghost snapshot at the start of an iteration / lock-step check at its end */
 #define CTX_SNAPSHOT(k, esc, count, last_start, c, z) \
-  g_c = (c); g_size0 = (k).size; g_top0 = (k).top; g_esc0 = (esc); g_cnt0 = (count); g_ls0 = (last_start); g_nops = 0; g_lastop = 0; \
+  g_c = (c); g_size0 = (k).size; g_top0 = (k).top; g_esc0 = (esc) ? 1 : 0; g_cnt0 = (count); g_ls0 = (last_start); g_nops = 0; g_lastop = 0; \
   if ((z) == g_sk) g_kdepth = (k).size;
 static inline void c8_ctx_check(const cstack* k, bool esc, size_t count, size_t last_start, size_t z, char delim, size_t max_splits)
 {
@@ -44,7 +44,7 @@ static inline void c8_ctx_check(const cstack* k, bool esc, size_t count, size_t 
   __CPROVER_assert(g_nops == ((verif_pop || verif_push) ? 1 : 0), "lock-step: at most the one stack operation of the reference step");
   __CPROVER_assert(verif_pop ==> (g_lastop == 2 && k->size == g_size0 - 1), "lock-step: POP exactly when the character is the innermost expected closer and not escaped");
   __CPROVER_assert(verif_push ==> (g_lastop == 1 && g_lastval == CTX_CLOSER(g_c) && k->size == g_size0 + 1), "lock-step: PUSH of the matching closer exactly for an opener outside quotes");
-  __CPROVER_assert(esc == (CTX_ESC_NEXT(g_c, g_size0, g_top0, g_esc0) != 0), "lock-step: escape flag");
+  __CPROVER_assert((esc ? 1 : 0) == (CTX_ESC_NEXT(g_c, g_size0, g_top0, g_esc0) ? 1 : 0), "lock-step: escape flag");
   __CPROVER_assert(count == g_cnt0 + (verif_split ? 1 : 0), "lock-step: a piece is cut exactly at a top-level delimiter while fewer than max_splits cuts were made");
   __CPROVER_assert(last_start == (verif_split ? z + 1 : g_ls0), "lock-step: the next piece starts right after the delimiter");
 }
